@@ -324,6 +324,12 @@ def r7_purity(ctx):
 
 
 def check(ctx):
+    from . import c02
+    ctx.alias = {"R4": "R1"}          # check_fit_input contract (values, weights unreordered and C-raveled) re-checked under C10.R1
+    try:
+        c02.r4_check_fit_input(ctx)
+    finally:
+        ctx.alias = {}
     r1_paths(ctx)
     r2_uncertainty(ctx)
     r3_unweighted(ctx)
